@@ -662,6 +662,103 @@ def alias_phase(chk, rng, n):
     return stats
 
 
+def pyblock_syntax_phase(chk, rng, n):
+    """A Python block (or ~ statement) reached during a choice that Python rejects before running it - at the parser
+    stage (`x = = 1`), at the compiler stage with no source text attached (`return` / `break` outside a function or
+    loop, `global` after use), or by raising SyntaxError itself - is a failing block like any other: choose() raises
+    RuntimeError or ValueError, the engine stays usable, one undo restores the pre-choice situation."""
+    bad = ["x = = 1", "return 5", "break", "continue", "a = 1\nglobal a", "def f(:\n    pass", "1 +", "raise SyntaxError('author')",
+           "yield 3", "await q", "nonlocal zz", "x = (1,", "import", "f(**)"]
+    stats = {"cases": 0, "kinds": {}}
+    for _ in range(n):
+        code = rng.choice(bad)
+        host = rng.choice(["py-top", "py-in-if", "py-in-for", "py-in-hook", "py-in-join-block"])
+        blk = ["@py:"] + code.split("\n") + ["@endpy"]
+        ind = lambda ls: ["    " + l for l in ls]  # noqa
+        if host == "py-top":
+            bad_p = [":: Bad", "Bad text"] + blk + ["+ [Back] -> Start"]
+        elif host == "py-in-if":
+            bad_p = [":: Bad", "Bad text", "@if a >= 0:"] + ind(blk) + ["@endif", "+ [Back] -> Start"]
+        elif host == "py-in-for":
+            bad_p = [":: Bad", "Bad text", "@for i in [1, 2]:"] + ind(blk) + ["@endfor", "+ [Back] -> Start"]
+        elif host == "py-in-hook":
+            bad_p = [":: Bad", "@hook turn_end Hk", "Bad text", "+ [Back] -> Start", "", ":: Hk"] + blk
+        else:
+            bad_p = [":: Bad", "Bad text", "+ [J] -> @join"] + ind(blk) + ["@join", "after", "+ [Back] -> Start"]
+        src = "\n".join([":: Start", "~ a = 1", "~ xs = [1]", "Start text {a}", "+ [Go bad] -> Bad", "+ [Go ok] -> Ok", "",
+                          ":: Ok", "~ a = a + 1", "Ok {a}", "+ [Back] -> Start", ""] + bad_p)
+        try:
+            story = R.compile_story(src)
+        except (SyntaxError, ValueError):
+            stats["kinds"]["rejected-at-compile"] = stats["kinds"].get("rejected-at-compile", 0) + 1
+            continue
+        ops = [("choose", 0)] + ([("choose", 0)] if host == "py-in-join-block" else []) + [("undo",), ("choose", 1), ("read",)]
+        if host == "py-in-hook":
+            ops = [("choose", 0), ("choose", 0), ("undo",), ("read",)]
+        recs, eng = R.run_history(story, ops)
+        stats["cases"] += 1
+        key = f"{host}:{code.split()[0]}"
+        stats["kinds"][key] = stats["kinds"].get(key, 0) + 1
+        chk.count(("pysyn", host, code), True)
+        failing = [x for x in recs[1:] if x["op"][0] == "choose" and x["obs"][0] == "exc"]
+        if not failing:
+            chk.report(f"statement-failure-swallowed:{host}", f"a Python block holding {code!r} ({host}) was reached and no call "
+                       "raised", {"story_source": src, "ops": ops, "obs": [x["obs"] for x in recs[1:]]})
+            continue
+        for x in failing:
+            if x["obs"][1] not in ("RuntimeError", "ValueError"):
+                chk.report(f"choose-raised-{x['obs'][2] if len(x['obs']) > 2 else x['obs'][1]}",
+                           f"a Python block holding {code!r} ({host}) made choose() raise {x['obs']} instead of RuntimeError / "
+                           "ValueError", {"story_source": src, "ops": ops, "obs": [y["obs"] for y in recs[1:]]})
+        # undo after the failure restores the situation before the failing choice
+        k = next(i for i, x in enumerate(recs) if x["op"][0] == "choose" and x["obs"][0] == "exc")
+        if k + 1 < len(recs) and recs[k + 1]["op"][0] == "undo" and recs[k]["before"] is not None and recs[k + 1]["view"] is not None:
+            if strip_flags(recs[k + 1]["view"]) != strip_flags(recs[k]["before"]):
+                diff = [kk for kk in strip_flags(recs[k]["before"]) if strip_flags(recs[k]["before"])[kk] != strip_flags(recs[k + 1]["view"]).get(kk)]
+                chk.report("undo-after-fault-not-exact", f"after the failing choice ({host}, {code!r}) one undo does not restore {diff}",
+                           {"story_source": src, "ops": ops})
+    return stats
+
+
+DEPTH_STORY = """:: Start
+~ n = 0
+[Start]
++ [Go] -> A
++ [Stay] -> Start
+
+:: A
+~ n = n + 1
+[A] {n}
++ [Back] -> Start
++ [Again] -> A
+"""
+
+
+def depth_bound_phase(chk, rng):
+    """'At most the 50 most recent choices can be undone' after EVERY kind of earlier history: the bound is a property of
+    the engine, not of a freshly constructed one.  A prefix (nothing / save + load into the same engine / a fresh engine
+    loaded from the save / a rejected load / undo-redo traffic / goto / reset), then 56 choices, then 60 undos: exactly
+    50 succeed and the 51st changes nothing."""
+    story = R.compile_story(DEPTH_STORY)
+    prefixes = {"none": [], "save-load": [("choose_valid", 0), ("save",), ("choose_valid", 1), ("load",)],
+                "reload": [("choose_valid", 0), ("reload",)], "rejected-load": [("choose_valid", 0), ("badload", 3)],
+                "undo-redo": [("choose_valid", 0), ("choose_valid", 1), ("undo",), ("redo",), ("undo",)],
+                "goto": [("goto_valid", 1)], "reset": [("choose_valid", 0), ("reset",)],
+                "raw-save-load": [("choose_valid", 0), ("save", "raw"), ("load",)]}
+    stats = {}
+    for name, pre in prefixes.items():
+        ops = pre + [("choose_valid", rng.randint(0, 1)) for _ in range(56)] + [("undo",)] * 60
+        recs, eng = R.run_history(story, ops)
+        tail = recs[len(pre) + 1 + 56:]
+        ok = sum(1 for x in tail if x["obs"] == ("bool", True))
+        stats[name] = ok
+        chk.count(("depth", name), True)
+        if ok != 50:
+            chk.report(f"undo-depth-bound:after={name}", f"after the prefix {name!r} and 56 choices, {ok} undos succeeded (expected "
+                       "exactly 50)", {"story_source": DEPTH_STORY, "ops": ops})
+    return stats
+
+
 def deepcopy_phase(chk, rng, n):
     """The snapshot copier of the engine (_copy_state: copy.deepcopy of the whole state with ONE memo, import bindings
     kept by reference) against Codec/DeepCopy.v, for which Props/C04.v proves: only new cells, same value, sharing
@@ -1100,9 +1197,15 @@ def run_engine_property(pid: str, tier: str, seed: int, design_note: str) -> int
 
     if pid == "C07":
         stats["call_shapes"] = call_shape_phase(chk, rng, 150 if tier == "quick" else 1500)
+    if pid == "C15":
+        # restore points with shared objects / bound methods in the variables (the undo half of C15), and failures that
+        # Python reports at compile stage inside a Python block
+        stats["shared_objects"] = alias_phase(chk, rng, 25 if tier == "quick" else 250)
+        stats["pyblock_syntax_faults"] = pyblock_syntax_phase(chk, rng, 24 if tier == "quick" else 240)
     if pid == "C04":
         stats["shared_objects"] = alias_phase(chk, rng, 60 if tier == "quick" else 600)
         stats["deepcopy_model"] = deepcopy_phase(chk, rng, 150 if tier == "quick" else 1500)
+        stats["depth_bound"] = depth_bound_phase(chk, rng)
 
     long_histories = 0
     for i in range(n_cases):
